@@ -79,7 +79,8 @@ def worker(k, q, tier, lock):
             sh(["git", "-C", root + "/repo", "checkout", "--", "."])
         with lock:
             meta = json.load(open(os.path.join(d, "meta.json")))
-            meta["matrix"] = {"tier": tier, "results": res}
+            old = meta.get("matrix", {}).get("results", {}) if meta.get("matrix", {}).get("tier") == tier else {}
+            meta["matrix"] = {"tier": tier, "results": dict(old, **res)}
             json.dump(meta, open(os.path.join(d, "meta.json"), "w"), indent=1)
     sh(["git", "-C", "/repo", "worktree", "remove", "--force", root + "/repo"])
     shutil.rmtree(root, ignore_errors=True)
